@@ -60,7 +60,22 @@ def do_check(pid, tier):
         except Exception as e:  # noqa: BLE001
             ctx.notes.append("leanchecker could not be run: %r" % (e,))
 
-    # 2.-4. known findings, correspondence, failing-input search
+    # 2. known findings: replay each listed witness on the real code
+    known_all = [f for f in C.load_known() if f.get("property") == pid and f.get("status") == "known"]
+    for f in known_all:
+        w = f.get("witness")
+        if not w:
+            continue
+        try:
+            still = mod.replay({"property": pid, "kind": w["kind"], "scenario": w["scenario"], "detail": w.get("detail")})
+        except Exception as e:  # noqa: BLE001
+            still = None
+            ctx.notes.append("witness of %s could not be replayed: %r" % (f["id"], e))
+        ctx.variant[f["id"]] = "present" if still else "absent"
+        if still:
+            ctx.known_printed.append({"id": f["id"], "what": f["what"]})
+
+    # 3.-4. correspondence, failing-input search
     mod.run(ctx)
 
     # 5. verdict
